@@ -3342,7 +3342,8 @@ impl CommandParser {
     }
     
     fn parse_xpending(frames: &[RespFrame]) -> Result<ConsumerGroupCommand> {
-        if frames.len() < 3 {
+        // XPENDING key group, or XPENDING key group start end count [consumer]
+        if frames.len() < 3 || frames.len() == 4 || frames.len() == 5 || frames.len() > 7 {
             return Err(FerrousError::Command(CommandError::WrongNumberOfArguments("XPENDING".into())));
         }
         let key = Self::extract_bytes(&frames[1])?;
